@@ -38,8 +38,10 @@ int Atomic_Factors(int Z, double E, double q, double debye, double *f0, double *
 { _Bool ok = __CPROVER_uninterpreted_afok(Z, E, q, debye);
   __CPROVER_assert(f0 != NULL && f1 != NULL && f2 != NULL, "the structure factor asks for all three atomic factors");
   __CPROVER_assert(Z >= 1 && Z <= ZMAX, "atomic factors are requested for valid atomic numbers only");
-  if (!ok) { *f0 = 0.0; *f1 = 0.0; *f2 = 0.0; stub_fail(error); return 0; }
+  /* the reported factors are written on both outcomes (all 0 on failure): no if-then-else around the UF leaves */
   *f0 = __CPROVER_uninterpreted_af0(Z, E, q, debye); *f1 = __CPROVER_uninterpreted_af1(Z, E, q, debye); *f2 = __CPROVER_uninterpreted_af2(Z, E, q, debye);
+  __CPROVER_assume(ok || (*f0 == 0.0 && *f1 == 0.0 && *f2 == 0.0));
+  if (!ok) { stub_fail(error); return 0; }
   return 1; }
 #endif
 void xrl_set_error(xrl_error **err, xrl_error_code code, const char *format, ...) { __CPROVER_assert(format && format[0], "error format is non-empty"); stub_set(err, code); }
